@@ -65,6 +65,15 @@ def check_class(res, index, cls):
             continue
     for e in ev:
         if e.type == "reorder" and e.target is not None and "batch" in e.target.tags:
+            # a reordering along another axis than the batch axis (e.g. a roll over the vertex axis) is harmless
+            from .interp import baxis_of
+            ax = e.f.get("axis")
+            k = baxis_of(e.target)
+            if ax is not None and ax.has_const() and isinstance(ax.const, int):
+                if k is not None and ax.const >= 0 and ax.const != k:
+                    continue
+                if k is None and not (ax.const == 0 and "batch2d" in e.target.tags):
+                    continue
             bad2 = True
             res.bad("IN-2", f"{label}:{e.fn}", e.where(), f"{label}: {e.fn}() reorders a batch-carrying array (`{e.src()[:60]}`): "
                     f"answers no longer come in input order")
